@@ -419,6 +419,23 @@ func (ex *Exec) prepare(decl *ast.FuncDecl) {
 				if o == nil {
 					continue
 				}
+				if _, isMap := under(o.Type()).(*types.Map); isMap {
+					// value semantics are only sound for maps that are not aliases of another map
+					var rhs ast.Expr
+					if len(s.Rhs) == len(s.Lhs) {
+						rhs = unparen(s.Rhs[i])
+					} else if len(s.Rhs) == 1 {
+						rhs = unparen(s.Rhs[0]) // v, ok := outer[k]
+					}
+					switch r := rhs.(type) {
+					case *ast.IndexExpr, *ast.SelectorExpr, *ast.StarExpr, *ast.TypeAssertExpr:
+						ex.aliasMapVars[o] = true
+					case *ast.Ident:
+						if r.Name != "nil" {
+							ex.aliasMapVars[o] = true
+						}
+					}
+				}
 				if _, isStruct := under(o.Type()).(*types.Struct); isStruct && len(s.Rhs) == len(s.Lhs) {
 					// a local struct VALUE built by a composite literal: slices made inside the literal are fresh
 					if _, ok := unparen(s.Rhs[i]).(*ast.CompositeLit); ok && s.Tok == token.DEFINE {
